@@ -95,6 +95,7 @@ def build_class(case, idx, seed, tmp):
     f2v = {}
     body = []
     for i, f in enumerate(case['fields']):
+        ns[f'T{i}'] = {'int': int, 'str': str, 'float': float}[f['tp']]     # the annotation is an object: a field may be called `str`
         v = f['var']
         if v is None:
             explicit = None
@@ -114,16 +115,16 @@ def build_class(case, idx, seed, tmp):
             explicit = None
         if explicit is not None:
             ns[f'F{i}'] = env_field(explicit, **kw)
-            body.append(f'{f["name"]}: {f["tp"]} = F{i}')
+            body.append(f'{f["name"]}: T{i} = F{i}')
         elif 'default' in kw:
             ns[f'D{i}'] = kw['default']
-            body.append(f'{f["name"]}: {f["tp"]} = D{i}')
+            body.append(f'{f["name"]}: T{i} = D{i}')
         elif 'default_factory' in kw:
             import dataclasses
             ns[f'F{i}'] = dataclasses.field(default_factory=kw['default_factory'])
-            body.append(f'{f["name"]}: {f["tp"]} = F{i}')
+            body.append(f'{f["name"]}: T{i} = F{i}')
         else:
-            body.append(f'{f["name"]}: {f["tp"]}')
+            body.append(f'{f["name"]}: T{i}')
     if f2v:
         ns['M_F2V'] = f2v
         meta_lines.append('field_to_env_var = M_F2V')
